@@ -94,24 +94,24 @@ static void describe_to_failing_sinks(const cbor_item_t* it, size_t n_in) {
     struct sigaction sa;
     memset(&sa, 0, sizeof sa);
     sa.sa_handler = sink_alarm;
-    sigaction(SIGALRM, &sa, NULL);
+    sigaction(SIGPROF, &sa, NULL); /* CPU time, not wall-clock time: a loaded machine cannot make a finite call look endless */
   }
   for (int k = 0; k < 3; k++) {
     if (!sinks[k]) { VH_COUNT("describe.failing_sink_unavailable", 1); continue; }
     if (sigsetjmp(g_sink_jmp, 1) == 0) {
       g_sink_armed = 1;
       struct itimerval tv = {{0, 0}, {20, 0}};
-      setitimer(ITIMER_REAL, &tv, NULL);
+      setitimer(ITIMER_PROF, &tv, NULL);
       cbor_describe((cbor_item_t*)it, sinks[k]);
       struct itimerval off = {{0, 0}, {0, 0}};
-      setitimer(ITIMER_REAL, &off, NULL);
+      setitimer(ITIMER_PROF, &off, NULL);
       g_sink_armed = 0;
       clearerr(sinks[k]);
       VH_COUNT("ops.describe_to_failing_sink", 1);
     } else {
       g_sink_armed = 0;
       g_sinks_dead = true;
-      vh_violation("hang", "cbor_describe of the tree decoded from a %zu-byte input did not return within 20 s when given %s (every write fails): it must return whatever the stream does", n_in, names[k]);
+      vh_violation("hang", "cbor_describe of the tree decoded from a %zu-byte input did not return within 20 s of CPU time when given %s (every write fails): it must return whatever the stream does", n_in, names[k]);
       return;
     }
   }
